@@ -94,3 +94,60 @@ def h_split(ctx):
         return {'what': 'concatenation length'}
     ctx.witness('split-%d' % len(got))
     return None
+
+
+# ---------------------------------------------------------------------------------------------------------------
+# every byte value in the length octets: messages whose TOTAL LENGTH is solver-chosen so that its octets are "special" bytes
+# (newline, carriage return, NUL, '.', '$', backslash ...).  The stream is a real bytes object here (concrete content), so a
+# scanner written with regular expressions or C-level searches is exercised as it is.
+
+TOTALS = [266, 269, 256, 302, 292, 265, 267, 300]      # 0x010A 0x010D 0x0100 0x012E 0x0124 ...
+SEPS = [b'', b'\n', b'BUF', b'\r\r\n7777']
+
+
+def h_lengths(ctx):
+    from pybufrkit.decoder import generate_bufr_message
+    from vlib import msgbuild
+    p = ctx.params
+    n = p.get('n_msgs', 2)
+    info_only = bool(ctx.choice('info_only', 2))
+    totals = [TOTALS[ctx.choice('total%d' % k, len(TOTALS))] for k in range(n)]
+    seps = [SEPS[ctx.choice('sep%d' % k, len(SEPS))] for k in range(n)] + [SEPS[ctx.choice('sepT', 2)]]
+    if ctx.mode == 'explore':
+        from crosshair.tracers import NoTracing
+        with NoTracing():       # everything is concrete from here on: the real scanner and decoder run natively on a bytes object
+            return _lengths_body(ctx, n, info_only, totals, seps)
+    return _lengths_body(ctx, n, info_only, totals, seps)
+
+
+def _lengths_body(ctx, n, info_only, totals, seps):
+    from pybufrkit.decoder import generate_bufr_message
+    from vlib import msgbuild
+    base = msgbuild.layout([1004, 205001], 3 + 8, edition=4)[1] - 1
+    blobs = []
+    stream = b''
+    for k in range(n):
+        total = totals[k]
+        y = total - base
+        bits = [0, 0, 1]
+        for ch in (b'A' * y):
+            bits += [(ch >> (7 - j)) & 1 for j in range(8)]
+        blob = msgbuild.message_bytes([1004, 205000 + y], bits, edition=4, category=k)
+        if len(blob) != total:
+            return {'what': 'harness: message length', 'got': len(blob), 'exp': total}
+        stream += seps[k] + blob
+        blobs.append(blob)
+    stream += seps[n]
+    got = []
+    try:
+        for bm in generate_bufr_message(pbk.decoder(), stream, info_only=info_only):
+            got.append(bm.serialized_bytes)
+            if len(got) > n + 1:
+                break
+    except Exception as e:
+        return {'what': 'scanning a stream of valid messages raised', 'exc': repr(e)[:300], 'lengths': [len(b) for b in blobs]}
+    if got != blobs:
+        return {'what': 'the stream is not split into exactly its messages', 'got': [len(b) for b in got], 'exp': [len(b) for b in blobs],
+                'info_only': info_only}
+    ctx.witness('split')
+    return None
